@@ -3,9 +3,12 @@ package c15
 import (
 	stdjson "encoding/json"
 	"fmt"
+	"strings"
 	"testing"
 
 	"pgregory.net/rapid"
+
+	js "github.com/jsightapi/jsight-schema-go-library/notations/jschema"
 
 	"verif/gen"
 	"verif/lib"
@@ -51,8 +54,14 @@ func check(t run.TB, c Case) bool {
 		run.Fail(t, chk, c, "Example() is not well-formed JSON: %s", ex)
 	}
 	if v := lib.Validate(s, ex); !v.OK {
-		if (v.Code == 205 || v.Code == 204) && c.Cyclic && run.MatchKnown("C15-cutoff-omits-required-property") {
-			// 204: the missing required key sits inside an alternative list
+		cutoff := v.Code == 205 || v.Code == 204 // 204: the missing required key sits inside an alternative list
+		if v.Code == 608 {
+			// the omitted element is an array item that minItems requires
+			for _, ty := range c.Spec.Types {
+				cutoff = cutoff || strings.Contains(ty.Text, "minItems")
+			}
+		}
+		if cutoff && c.Cyclic && run.MatchKnown("C15-cutoff-omits-required-property") {
 			return true
 		}
 		run.Fail(t, chk, c, "Example() %s is rejected by its own schema: %v", ex, v)
@@ -109,6 +118,31 @@ func recursionGraph(t *rapid.T) lib.Spec {
 	text += "}"
 	root := rapid.SampledFrom([]string{"@r", "{\n  \"a\": 1,\n  \"b\": @r\n}", "[\n  @r,\n  2\n]", "{\n  \"b\": @r,\n  \"z\": true\n}"}).Draw(t, "root")
 	return lib.Spec{Schema: root, Types: []lib.Named{{Name: "@r", Text: text}, {Name: "@leaf", Text: "5"}}}
+}
+
+// hasCycle: some named type reaches itself through references of any form.
+func hasCycle(g *ref.Graph) bool {
+	state := map[string]int{}
+	var dfs func(string) bool
+	dfs = func(u string) bool {
+		state[u] = 1
+		for _, v := range ref.RefNames(g.Types[u]) {
+			if g.Types[v] == nil {
+				continue
+			}
+			if state[v] == 1 || (state[v] == 0 && dfs(v)) {
+				return true
+			}
+		}
+		state[u] = 2
+		return false
+	}
+	for name := range g.Types {
+		if state[name] == 0 && dfs(name) {
+			return true
+		}
+	}
+	return false
 }
 
 func indexOf(s, sub string) int {
@@ -199,7 +233,7 @@ func TestExample(t *testing.T) {
 			for _, ty := range pg.Types {
 				sp.Types = append(sp.Types, lib.Named{Name: ty.Name, Text: ty.Text})
 			}
-			c = Case{Spec: sp}
+			c = Case{Spec: sp, Cyclic: hasCycle(gc.G)}
 			feature = true
 			run.Label("family:type-graph")
 		}
@@ -212,6 +246,117 @@ func TestExample(t *testing.T) {
 			}
 		} else {
 			run.Label("check-rejected(discarded)")
+		}
+	})
+}
+
+// Type objects shared between two roots that define one referenced type differently: each
+// root's example is built against that root's own registry, whatever the other root did before.
+type SharedCase struct {
+	Spec     lib.Spec `json:"spec"`          // root 1
+	Replaced string   `json:"replaced_type"` // the one type root 2 defines differently
+	NewText  string   `json:"its_text_in_root_2"`
+}
+
+const chkShared = "example-with-shared-type-objects"
+
+func init() {
+	run.RegisterReplay(chkShared, func(t run.TB, raw stdjson.RawMessage) {
+		var c SharedCase
+		if err := stdjson.Unmarshal(raw, &c); err != nil {
+			t.Fatalf("bad case: %v", err)
+		}
+		checkShared(t, c)
+	})
+}
+
+func checkShared(t run.TB, c SharedCase) bool {
+	var oo []js.Option
+	if c.Spec.KeysOptional {
+		oo = append(oo, js.KeysAreOptionalByDefault())
+	}
+	build := func(objs map[string]*js.Schema, second bool) (*js.Schema, lib.Res) {
+		r := js.New("root", c.Spec.Schema, oo...)
+		first := lib.Res{OK: true}
+		for _, ty := range c.Spec.Types {
+			var o *js.Schema
+			switch {
+			case second && ty.Name == c.Replaced:
+				o = js.New(ty.Name, c.NewText)
+			case objs != nil:
+				o = objs[ty.Name]
+			default:
+				o = js.New(ty.Name, ty.Text)
+			}
+			if a := lib.Safe(func() error { return r.AddType(ty.Name, o) }); !a.OK && first.OK {
+				first = a
+			}
+		}
+		return r, first
+	}
+	// reference: root 2 from fresh objects
+	f2, a := build(nil, true)
+	if !a.OK || !lib.Check(f2).OK {
+		return false
+	}
+	want, wr := lib.Example(f2)
+	if !wr.OK {
+		return false // judged by the main check
+	}
+	objs := map[string]*js.Schema{}
+	for _, ty := range c.Spec.Types {
+		objs[ty.Name] = js.New(ty.Name, ty.Text)
+	}
+	r1, a1 := build(objs, false)
+	if a1.Panic != "" {
+		run.Fail(t, chkShared, c, "AddType panicked: %v", a1)
+	}
+	if a1.OK && lib.Check(r1).OK {
+		if _, r := lib.Example(r1); r.Panic != "" {
+			run.Fail(t, chkShared, c, "root 1: Example panicked: %s", r.Panic)
+		}
+	}
+	r2, a2 := build(objs, true)
+	cr := lib.Check(r2)
+	if !a2.OK || !cr.OK {
+		run.Fail(t, chkShared, c, "root 2 built from fresh objects passes Check; with type objects shared with root 1: add=%v check=%v", a2, cr)
+	}
+	got, gr := lib.Example(r2)
+	if gr.Panic != "" || !gr.OK {
+		run.Fail(t, chkShared, c, "root 2: Example fails with shared type objects: %v", gr)
+	}
+	if string(got) != string(want) {
+		run.Fail(t, chkShared, c, "root 2: Example()=%s after root 1 (sharing type objects) built its example; a root built from fresh objects gives %s", got, want)
+	}
+	return true
+}
+
+func TestExampleSharedTypes(t *testing.T) {
+	run.SkipIfReplaying(t)
+	defer run.Done(t, chkShared)
+	rapid.Check(t, func(t *rapid.T) {
+		gc := gen.GenGraph(t, gen.GraphOpts{MaxTypes: 5, Recursion: true}, "g")
+		pg := gc.Print(nil)
+		sp := lib.Spec{Schema: pg.Schema, KeysOptional: gc.G.KeysOptional}
+		var scalars []string
+		for _, ty := range pg.Types {
+			sp.Types = append(sp.Types, lib.Named{Name: ty.Name, Text: ty.Text})
+			if n := gc.G.Types[ty.Name]; n != nil && n.Kind == ref.SLit && !strings.HasPrefix(ty.Name, "@k") {
+				scalars = append(scalars, ty.Name)
+			}
+		}
+		if len(scalars) == 0 {
+			return
+		}
+		c := SharedCase{Spec: sp, Replaced: rapid.SampledFrom(scalars).Draw(t, "replaced"),
+			NewText: rapid.SampledFrom([]string{`"other"`, "12345", "false", "null", `"x" // {minLength: 1}`, "0.25", `{"z": 1}`, `[7]`}).Draw(t, "newText")}
+		ok := checkShared(t, c)
+		run.Eval(chkShared, ok, fmt.Sprint(c.Spec), c.Replaced, c.NewText)
+		if ok {
+			run.Label("shared:judged")
+			run.Sample(chkShared, c)
+		} else {
+			run.Label("shared:root-2-not-accepted(discarded)")
 		}
 	})
 }
